@@ -98,8 +98,17 @@ class Probe(SourceProxy):
             return Total(sel, close=self._make_emitter(sel))
 
     def _install_tooling(self):
-        for selector in self._selectors:
-            autotool(selector)
+        done = []
+        try:
+            for selector in self._selectors:
+                autotool(selector)
+                done.append(selector)
+        except Exception:
+            # One selector is refused: leave the functions of the others
+            # as they were
+            for selector in reversed(done):
+                autotool(selector, undo=True)
+            raise
 
     def _uninstall_tooling(self):
         for selector in self._selectors:
